@@ -153,7 +153,7 @@ func StartRemote(ctx context.Context, le *logrus.Entry, n *SwitchNet, home strin
 	ep := n.NewEndpoint(home)
 	rec := NewRecorder(nil)
 	rec.pump = true
-	tpt, err := pconn.NewTransport(ctx, le, id.Priv, rec, Opts(), 0, ep, ParseAddr, nil)
+	tpt, err := pconn.NewTransport(ctx, le, id.Priv, rec, Opts(), 0, ep, n.ParseAddr, nil)
 	if err != nil {
 		return nil, err
 	}
@@ -175,7 +175,7 @@ type Local struct {
 func StartLocal(ctx context.Context, le *logrus.Entry, n *SwitchNet, home string, id *keys.Identity, staticPeerMap map[string]*dialer.DialerOpts) (*Local, error) {
 	ep := n.NewEndpoint(home)
 	l, err := startLocal(ctx, le, id, func(cctx context.Context, cle *logrus.Entry, pkey crypto.PrivKey, handler transport.TransportHandler) (transport.Transport, error) {
-		pt, err := pconn.NewTransport(cctx, cle, pkey, handler, Opts(), 0, ep, ParseAddr, staticPeerMap)
+		pt, err := pconn.NewTransport(cctx, cle, pkey, handler, Opts(), 0, ep, n.ParseAddr, staticPeerMap)
 		if err != nil {
 			return nil, err
 		}
